@@ -169,7 +169,7 @@ theorem round_is_one_add (d : DB) (cx : Ctx) (hcx : CtxOnce d cx)
 def Membership.added (cur : Membership) (ver id : Nat) (na : Addr) : Membership :=
   { ver := ver, members := cur.members ++ [(id, na)], removed := cur.removed }
 
-/-- **an ADD that dragonboat admits extends the group**: the request reaches a NodeHost that runs a member of the
+/-- **an ADD that dragonboat accepts extends the group**: the request reaches a NodeHost that runs a member of the
     shard, is fenced by the group's current version, a majority of the members is running, and `(id, na)` is admissible
     (id never used in the group - neither a member nor removed -, no member at `na`). Then the group's history grows by
     exactly the membership with `(id, na)` appended, at a new version; the executing replica is at the new entry. -/
@@ -323,7 +323,7 @@ theorem replacement_member_is_added (l : Loop) (hs : l.Settled)
   have hviarep : via ∈ c.replicas := by
     unfold Shard.okReplicas at hviaok
     exact (List.mem_filter.mp hviaok).1
-  -- the execution is one admitted change
+  -- the execution is one accepted change
   have hgcur : c.cci = g.cur.ver := by
     obtain ⟨g', hg', hv⟩ := hs.views c hc
     rw [hg] at hg'; cases hg'; exact hv
